@@ -45,6 +45,12 @@ CHECKS = {
  "C04": ("fault_enumeration", "exhaustive enumeration of single-field alterations of every preprocessing message with per-field consumption rules; trace monitors over model-checked schedules; wire-only challenge predictor compared with probes",
          "(a) every field of every coin-toss, base-OT, OT-extension, aBit, aShare, HaAND/LaAND, bucket and Beaver message of the corrupted party, to one recipient and consistently to all, plus tap-based persistent liars: honest recipients of a consumed bad value return Err (by a check of their own where they hold the key/commitment); (b) reveal-after-all-commits on every schedule explored by the C12 explorer; (c) challenges recomputed from wire data available before the checked data is sent, compared with the challenge actually used, and reuse between checks.",
          "negligible-probability forgeries treated as impossible; three protocol-flow findings (challenge fixed before data) are listed in known_findings.json", "4.C04", "E1+E2"),
+ "C02": ("fault_enumeration", "exhaustive enumeration of single structure-aware alterations and omissions of every message of one corrupted party (all phases) plus tap-based consistent lies, with an output-set oracle computed by enumeration of the corrupted inputs",
+         "For circuits whose outputs pin down the corrupted party's effective input, every message of the corrupted evaluator/garbler is altered at every field (bit flips, omissions, empty vectors; thorough: full menu), per recipient and consistently; every honest output party must return Err or a value in {f(x_honest, x')}, and all accepted values must be explained by one x'.",
+         "single corrupted party, one fault per execution (plus taps); quick uses the reduced mutation menu", "4.C02", "E1+E2"),
+ "C07": ("fault_enumeration", "XOR-closure search for the victim's probed key over all bytes on the wire, on honest runs, on every enumerated single alteration that keeps the run going, and on a scripted persistent attacker",
+         "With d the victim's global key: d must not occur at any byte offset (either byte order), no two 128-bit windows and no three decoded 128-bit fields of the pooled traffic (plus what peers hold in the honest run of the same tape) may XOR to d; evaluated on honest runs (NOT gates on inputs, AND outputs, outputs; n=2..4), on every fault of the C02/C04 menu after which the victim keeps sending, and on the check-bit liar with fixed-up reply.",
+         "label census not implemented; one by-design leak of the failing LaAND check is a known finding", "4.C07", "E1+E2"),
 }
 
 NOT_YET = "check not built yet (construction in progress, see DESIGN.md section 8)"
